@@ -1131,6 +1131,14 @@ class TLSConnection(TLSRecordLayer):
                 real_version = ext.version
         self.version = real_version
 
+        # in TLS 1.3 the ServerHello has to end its record (the keys change
+        # after it); _getMsg could not check it as the version was not known
+        if real_version > (3, 3) and not self._defragmenter.is_empty():
+            for result in self._sendError(
+                    AlertDescription.unexpected_message,
+                    "ServerHello not aligned with record boundary"):
+                yield result
+
         # Check ServerHello
         if hello_retry and \
                 hello_retry.cipher_suite != serverHello.cipher_suite:
@@ -4251,6 +4259,13 @@ class TLSConnection(TLSRecordLayer):
         # a new client hello
         if version > (3, 3):
             self.version = version
+            # in TLS 1.3 the ClientHello has to end its record; _getMsg could
+            # not check it as the version was not known yet
+            if not self._defragmenter.is_empty():
+                for result in self._sendError(
+                        AlertDescription.unexpected_message,
+                        "ClientHello not aligned with record boundary"):
+                    yield result
             hrr_ext = []
 
             # check if we have good key share
